@@ -11,6 +11,7 @@ import (
 	"sync"
 	"time"
 
+	"github.com/emitter-io/emitter/internal/message"
 	"github.com/emitter-io/emitter/internal/network/mqtt"
 	"github.com/emitter-io/emitter/verif/bk"
 	"github.com/emitter-io/emitter/verif/core"
@@ -39,6 +40,9 @@ type Action struct {
 	Status bool            `json:"status"`
 	Chg    string          `json:"chg"`
 	How    string          `json:"how"`
+	Cls    string          `json:"cls"`
+	Fn     string          `json:"fn"`
+	Idx    int             `json:"idx"`
 }
 
 type willRec struct {
@@ -51,6 +55,10 @@ type willRec struct {
 }
 
 const stepTimeout = 8 * time.Second
+
+// EventSink, when set, receives every event as soon as it is recorded (used by the child-process replayer so that a
+// trace survives the death of the process).
+var EventSink func(label string, ev []byte)
 
 // Keys minted for a broker, by model name.
 func mintKeys(b *bk.Broker) (map[string]string, error) {
@@ -219,6 +227,129 @@ func (w *world) collect(requester, isSub string) (map[string]*outRec, error) {
 	return out, nil
 }
 
+func fixedHeader(typ byte, flags byte, remaining int) []byte {
+	b := []byte{typ<<4 | flags}
+	for {
+		d := byte(remaining % 128)
+		remaining /= 128
+		if remaining > 0 {
+			d |= 0x80
+		}
+		b = append(b, d)
+		if remaining == 0 {
+			return b
+		}
+	}
+}
+
+// hostile sends the bytes of one hostile class on connection c and reports whether the broker closed the connection.
+// An error means the broker neither answered nor closed in time (hang).
+func (w *world) hostile(c *bk.Client, cls string, rng *rand.Rand) (bool, error) {
+	k := w.key("kAll")
+	pub := func(topic string, payload string) {
+		w.msgID++
+		c.Send(&mqtt.Publish{Header: mqtt.Header{QOS: 1}, MessageID: w.msgID, Topic: []byte(topic), Payload: []byte(payload)})
+	}
+	pings := 0
+	switch cls {
+	case "type0":
+		c.SendRaw([]byte{0x00, 0x00})
+	case "type15":
+		c.SendRaw([]byte{0xF0, 0x02, 1, 2})
+	case "oversize":
+		c.SendRaw(append(fixedHeader(3, 0, 70000), 0, 1, 'a'))
+	case "len5":
+		c.SendRaw([]byte{0x30, 0xFF, 0xFF, 0xFF, 0xFF, 0x7F, 0, 1})
+	case "strlen":
+		c.SendRaw(append(fixedHeader(8, 2, 6), 0, 1, 0xFF, 0xFF, 'a', 0))
+	case "garbage":
+		b := make([]byte, 40)
+		rng.Read(b)
+		b[0] = 0x0F
+		c.SendRaw(b)
+	case "short-connect":
+		c.SendRaw(append(fixedHeader(1, 0, 3), 0, 4, 'M'))
+	case "sub-last-huge":
+		w.msgID++
+		c.Send(&mqtt.Subscribe{MessageID: w.msgID, Subscriptions: []mqtt.TopicQOSTuple{{Topic: []byte(k + "/a/?last=99999999999")}}})
+	case "sub-last-max":
+		w.msgID++
+		c.Send(&mqtt.Subscribe{MessageID: w.msgID, Subscriptions: []mqtt.TopicQOSTuple{{Topic: []byte(k + "/a/?last=9223372036854775807")}}})
+	case "history-last-huge":
+		pub("emitter/history/", fmt.Sprintf(`{"key":%q,"channel":"%s/a/?last=99999999999"}`, k, k))
+	case "keygen-illtyped":
+		pub("emitter/keygen/", `{"key":123,"channel":[],"type":{},"ttl":"x"}`)
+	case "presence-illtyped":
+		pub("emitter/presence/", `{"key":{"a":1},"channel":17,"status":"yes","changes":3}`)
+	case "link-longname":
+		pub("emitter/link/", fmt.Sprintf(`{"name":%q,"key":%q,"channel":"a/","subscribe":true}`, strings.Repeat("n", 300), k))
+	case "pub-ttl-huge":
+		pub(k+"/hostile/?ttl=99999999999999999", "x")
+	case "pub-window-extreme":
+		pub(k+"/hostile/?from=99999999999999999&until=0&last=0&me=7", "x")
+	case "api-unknown":
+		pub("emitter/doesnotexist/", `{}`)
+	case "pub-many-options":
+		var o []string
+		for i := 0; i < 300; i++ {
+			o = append(o, fmt.Sprintf("o%d=%d", i, i))
+		}
+		pub(k+"/hostile/?"+strings.Join(o, "&"), "x")
+	case "ping-flood":
+		pings = 1500
+		for i := 0; i < pings; i++ {
+			c.Send(&mqtt.Pingreq{})
+		}
+	default:
+		if strings.HasPrefix(cls, "empty-") {
+			typ := map[string]byte{"connect": 1, "connack": 2, "publish": 3, "puback": 4, "pubrel": 6, "subscribe": 8, "suback": 9, "unsubscribe": 10, "unsuback": 11}[strings.TrimPrefix(cls, "empty-")]
+			c.SendRaw([]byte{typ << 4, 0x00})
+		} else {
+			return false, fmt.Errorf("unknown hostile class %q", cls)
+		}
+	}
+	// drain the flood's answers so that later barriers see their own PINGRESP
+	for i := 0; i < pings; i++ {
+		if _, err := c.Barrier0(stepTimeout); err != nil {
+			break
+		}
+	}
+	select {
+	case <-c.S.Closed():
+		return true, nil
+	case <-time.After(150 * time.Millisecond):
+	}
+	// still open? then it must answer a ping; the replies it produced are collected by the step's barriers
+	c.Send(&mqtt.Pingreq{})
+	deadline := time.After(stepTimeout)
+	for {
+		select {
+		case <-c.S.Closed():
+			return true, nil
+		case <-deadline:
+			return false, fmt.Errorf("hostile class %s: the broker neither answered nor closed the connection (hang)", cls)
+		default:
+		}
+		if c.C.Buffered() > 0 {
+			// something arrived: leave it for collect() - but the PINGRESP of this probe must be swallowed there; mark it
+			c.PendingPong++
+			return false, nil
+		}
+		time.Sleep(2 * time.Millisecond)
+	}
+}
+
+// directEntries counts the trie entries held by client connections (remote peers learnt from gossip are C05's subject).
+func directEntries(b *bk.Broker) int {
+	n := 0
+	for _, e := range b.Svc.VerifTrie().VerifEntries() {
+		if e.Type == message.SubscriberDirect {
+			n++
+		}
+	}
+	return n
+}
+
 // Replay executes one behaviour on a fresh broker and records the trace. A nil trace with an error means the
 // machinery failed (broker did not start, a client timed out): never a verdict by itself.
 func Replay(mode string, licVer int, storage string, walk []json.RawMessage, label string, rng *rand.Rand) (*core.Trace, error) {
@@ -231,8 +362,12 @@ func Replay(mode string, licVer int, storage string, walk []json.RawMessage, lab
 	if w.keys, err = mintKeys(b); err != nil {
 		return nil, err
 	}
+	closedByHostile := map[string]bool{}
 	tr := &core.Trace{Label: label}
 	tr.Events = append(tr.Events, core.Ev(map[string]any{"e": "reset", "mode": mode, "license": licVer}))
+	if EventSink != nil {
+		EventSink(label, tr.Events[0])
+	}
 	for _, raw := range walk {
 		var a Action
 		if err := json.Unmarshal(raw, &a); err != nil {
@@ -243,7 +378,10 @@ func Replay(mode string, licVer int, storage string, walk []json.RawMessage, lab
 		ev["e"] = a.N
 		delete(ev, "n")
 		c := w.clients[a.C]
-		if a.N != "connect" && (c == nil || c.Closed) {
+		if a.N != "connect" && a.N != "cluster" && (c == nil || c.Closed) {
+			if closedByHostile[a.C] {
+				break // the generator assumed the connection survives its hostile request; the broker closed it (allowed): the behaviour ends here
+			}
 			return nil, fmt.Errorf("behaviour uses client %s which is not open", a.C)
 		}
 		w.msgID++
@@ -313,6 +451,22 @@ func Replay(mode string, licVer int, storage string, walk []json.RawMessage, lab
 			}
 			c.Closed = true
 			c.C.Close()
+		case "cluster":
+			ev["panic"] = clusterHostile(b, a.Fn, a.Idx, ev)
+		case "hostile":
+			if strings.HasPrefix(a.Cls, "sub-last-") {
+				isSub = a.C
+			}
+			closed, err := w.hostile(c, a.Cls, rng)
+			if err != nil {
+				return nil, err
+			}
+			ev["closed"] = closed
+			if closed {
+				closedByHostile[a.C] = true
+				c.Closed = true
+				c.C.Close()
+			}
 		default:
 			return nil, fmt.Errorf("unknown action %q", a.N)
 		}
@@ -321,8 +475,11 @@ func Replay(mode string, licVer int, storage string, walk []json.RawMessage, lab
 			return nil, fmt.Errorf("step %s: %v", raw, err)
 		}
 		ev["out"] = out
-		ev["tcount"] = b.Svc.VerifTrie().Count()
+		ev["tcount"] = directEntries(b)
 		tr.Events = append(tr.Events, core.Ev(ev))
+		if EventSink != nil {
+			EventSink(label, tr.Events[len(tr.Events)-1])
+		}
 	}
 	return tr, nil
 }
